@@ -667,7 +667,7 @@ func c08R5(h H) {
 		}
 		return
 	}
-	for _, g := range withClosures(fn) {
+	for _, g := range withHelpers(fn, 2) { // closures, helpers, and handlers filed in a package-level table
 		restart := callsTo(g, "casket.Instance).Restart")
 		if len(restart) == 0 {
 			continue
